@@ -175,3 +175,60 @@ Qed.
 (* the date written into the tags is the civil date of floor(epoch / 86400) days after 1970-01-01 (UTC) *)
 Lemma date_of_unix_utc e d : date_of_unix e = Some d -> d = civil_from_days (e / 86400).
 Proof. unfold date_of_unix. destruct (_ && _)%bool; [intros H; injection H as <-; reflexivity | discriminate]. Qed.
+
+(* ---------- whole documents ---------- *)
+(* two raw lines (with their terminators) that the loop cannot tell apart while it is inside the header window:
+   same validity, same terminator, same text written, same "changed" verdict, same end-of-header verdict *)
+Definition line_var (epoch : option Z) (raw raw' : bytes) : Prop :=
+  utf8_ok raw = utf8_ok raw' /\ snd (line_eol raw) = snd (line_eol raw') /\
+  line_out epoch (fst (line_eol raw)) = line_out epoch (fst (line_eol raw')) /\
+  (match process_line epoch (fst (line_eol raw)) with Some _ => true | None => false end) =
+  (match process_line epoch (fst (line_eol raw')) with Some _ => true | None => false end) /\
+  contains_ci head_end (fst (line_eol raw)) = contains_ci head_end (fst (line_eol raw')).
+
+Lemma line_var_refl epoch raw : line_var epoch raw raw.
+Proof. repeat split. Qed.
+
+(* variants of a document: inside the header window the lines are indistinguishable for the loop, after it
+   they are identical (nothing is normalised there) *)
+Fixpoint doc_var (epoch : option Z) (open : bool) (num : nat) (lines lines' : list bytes) : Prop :=
+  match lines, lines' with
+  | [], [] => True
+  | raw :: r, raw' :: r' =>
+      if open then
+        line_var epoch raw raw' /\
+        doc_var epoch (negb (cmp_N javadoc_window_cmp (N.of_nat (S num)) (N.of_nat javadoc_header_lines) || contains_ci head_end (fst (line_eol raw)))) (S num) r r'
+      else raw = raw' /\ doc_var epoch false (S num) r r'
+  | _, _ => False
+  end.
+
+Lemma jd_loop_variants epoch : forall lines lines' num after_header have_mod acc,
+  doc_var epoch (negb after_header) num lines lines' ->
+  jd_loop epoch lines num after_header have_mod acc = jd_loop epoch lines' num after_header have_mod acc.
+Proof.
+  induction lines as [|raw lines IH]; intros [|raw' lines'] num ah hm acc H; cbn [doc_var] in H; try contradiction; [reflexivity|].
+  destruct ah; cbn [negb] in H.
+  - destruct H as [<- H]. cbn [jd_loop]. destruct (negb (utf8_ok raw)); [reflexivity|].
+    destruct (line_eol raw) as [l eol]. cbn [negb andb]. apply IH. exact H.
+  - destruct H as [(Hu & He & Ho & Hc & Hh) H]. cbn [jd_loop]. rewrite <- Hu. destruct (negb (utf8_ok raw)); [reflexivity|].
+    destruct (line_eol raw) as [l eol] eqn:E1. destruct (line_eol raw') as [l' eol'] eqn:E2. cbn [fst snd] in *. subst eol'.
+    unfold line_out in Ho. rewrite <- Hh.
+    assert (Eout : match process_line epoch l with Some l2 => l2 | None => l end = match process_line epoch l' with Some l2 => l2 | None => l' end) by exact Ho.
+    assert (Emod : (hm || match process_line epoch l with Some _ => true | None => false end)%bool = (hm || match process_line epoch l' with Some _ => true | None => false end)%bool) by (rewrite Hc; reflexivity).
+    rewrite <- Eout, <- Emod. cbn [negb andb].
+    destruct (cmp_N javadoc_window_cmp (N.of_nat (S num)) (N.of_nat javadoc_header_lines) || contains_ci head_end l)%bool; cbn [negb] in H.
+    + destruct (hm || _)%bool; [apply IH; exact H | reflexivity].
+    + apply IH. exact H.
+Qed.
+
+(* two documents that are variants of each other in this sense and of which one is rewritten come out identical *)
+Theorem javadoc_variants epoch x x' y hm y' hm' :
+  doc_var epoch true 0 (split_lines x []) (split_lines x' []) ->
+  javadoc_process epoch x = Ok (y, hm) -> javadoc_process epoch x' = Ok (y', hm') -> hm = true -> y = y' /\ hm' = true.
+Proof.
+  intros Hv H H' Hm. unfold javadoc_process in *.
+  rewrite <- (jd_loop_variants epoch _ _ 0 false false [] Hv) in H'.
+  destruct (jd_loop epoch (split_lines x []) 0 false false []) as [[z b]|].
+  - injection H as <- <-. injection H' as <- <-. split; [reflexivity | exact Hm].
+  - injection H as _ <-. discriminate Hm.
+Qed.
